@@ -73,6 +73,7 @@ def shards(tier, seed):
         for first in firsts:
             out.append(dict(name="match_w%d/%s" % (10 * scale, "-".join(first)), kind="match", pal=pal, K=4, first=first, scale=scale, reduced=True,
                             weight=4 ** 4 * 30))
+    out.append(dict(name="chrom_exact", kind="chrom_exact", weight=1500))
     out.append(dict(name="megabase", kind="mega", weight=3000))
     out.append(dict(name="sched", kind="sched", weight=2000))
     return out
@@ -164,6 +165,71 @@ def run_chrom(rec, sh, tier, seed):
                 os.remove(fa + ".fai")
         rec.sample(dict(kind="chrom", k=sh["k"], tile_sequences=len(combos), palette=list(TILES), widths=[0.1, 0.25], max_n_perc=[0, 0.1, 0.5],
                         bigwig="off / out=in / in-1 / in-4 with thresholds"))
+    finally:
+        shutil.rmtree(d, ignore_errors=True)
+
+
+def run_chrom_exact(rec, tier, seed):
+    """Windows of 50 / 100 / 200 bases whose N count makes the N fraction EQUAL to max_n_perc (a fraction k/W that is not a round number:
+    0.29, 0.58, 0.145, ...): "not above" includes equality.  And a deep-coverage chromosome whose cumulative signal passes 2^24 while
+    the per-tile sums sit one count above / exactly at the threshold."""
+    import pyBigWig
+    from tangermeme.match import _extract_and_filter_chrom
+    d = env.scratch_dir("c17x")
+    try:
+        for Wn in (50, 100, 200):
+            ks = sorted(set([0, 1, Wn // 4, 29 * Wn // 100, 29 * Wn // 100 + 1, 57 * Wn // 100, 58 * Wn // 100, Wn // 2]))
+            tiles = []
+            for k in ks:
+                body = ("ACGT" * Wn)[:Wn - k]
+                tiles.append("N" * k + body)
+            s = "".join(tiles)
+            fa = os.path.join(d, "x%d.fa" % Wn)
+            with open(fa, "w") as fh:
+                fh.write(">c\n%s\n" % s)
+            for k0 in ks:
+                for p_ in (k0 / Wn, numpy.nextafter(k0 / Wn, 1.0), numpy.nextafter(k0 / Wn, 0.0) if k0 else 0.0):
+                    exp = {}
+                    for t, k in enumerate(ks):
+                        if k / Wn <= p_:
+                            tile = tiles[t]
+                            exp.setdefault(gc_bin((tile.count("G") + tile.count("C")) / Wn, 0.25), []).append(t)
+                    case = dict(fn="_extract_and_filter_chrom", in_window=Wn, n_counts=ks, max_n_perc=float(p_))
+                    st, got = call(_extract_and_filter_chrom, fa, "c", Wn, Wn, max_n_perc=float(p_), gc_bin_width=0.25, bigwig=None, signal_threshold=None)
+                    rec.case(1, 1)
+                    if st != "ok":
+                        rec.violation("_extract_and_filter_chrom:raises", case, observed=got)
+                        continue
+                    got = {int(k): [int(v) for v in vs] for k, vs in got.items()}
+                    if got != exp:
+                        rec.violation("_extract_and_filter_chrom:wrong_tiles:n_fraction_equal_to_threshold", case, expected=exp, observed=got)
+        # deep coverage: 400 tiles of 100 bases, 1000 counts per base; most tiles carry one extra count
+        Wn, nt = 100, 400
+        sig = numpy.full(Wn * nt, 1000.0)
+        exact = (150, 390, 7)
+        for t in range(nt):
+            if t not in exact:
+                sig[t * Wn + (t * 7) % Wn] += 1.0
+        fa = os.path.join(d, "deep.fa")
+        with open(fa, "w") as fh:
+            fh.write(">c\n%s\n" % ("ACGT" * (Wn * nt // 4)))
+        bwp = os.path.join(d, "deep.bw")
+        b = pyBigWig.open(bwp, "w")
+        b.addHeader([("c", Wn * nt)])
+        b.addEntries(["c"] * (Wn * nt), list(range(Wn * nt)), ends=list(range(1, Wn * nt + 1)), values=[float(v) for v in sig])
+        b.close()
+        for thr in (100000.0, 100000.5, 99999.0, 100001.0):
+            exp_t = [t for t in range(nt) if sig[t * Wn:(t + 1) * Wn].sum() <= thr]
+            case = dict(fn="_extract_and_filter_chrom", in_window=Wn, tiles=nt, signal="1000 per base (+1 in most tiles)", signal_threshold=thr)
+            st, got = call(_extract_and_filter_chrom, fa, "c", Wn, Wn, max_n_perc=0.1, gc_bin_width=0.25, bigwig=bwp, signal_threshold=thr)
+            rec.case(1, 1)
+            if st != "ok":
+                rec.violation("_extract_and_filter_chrom:raises", case, observed=got)
+                continue
+            got_t = sorted(int(v) for vs in got.values() for v in vs)
+            if got_t != exp_t:
+                rec.violation("_extract_and_filter_chrom:wrong_tiles:deep_coverage", case, expected=exp_t[:10], observed=got_t[:10])
+        rec.sample(dict(kind="chrom_exact", windows=[50, 100, 200], thresholds="k/W and its float neighbours", deep_coverage="400 tiles x 100 bases x 1000 counts"))
     finally:
         shutil.rmtree(d, ignore_errors=True)
 
@@ -521,6 +587,8 @@ def run_shard(sh, tier, seed):
     rec = Recorder(PID, sh["name"])
     if sh["kind"] == "chrom":
         run_chrom(rec, sh, tier, seed)
+    elif sh["kind"] == "chrom_exact":
+        run_chrom_exact(rec, tier, seed)
     elif sh["kind"] == "mega":
         run_mega(rec, tier, seed)
     elif sh["kind"] == "match":
@@ -533,7 +601,9 @@ def run_shard(sh, tier, seed):
 def replay(v):
     c = v["case"]
     rec = Recorder(PID, "replay")
-    if c.get("fn") == "_extract_and_filter_chrom":
+    if c.get("fn") == "_extract_and_filter_chrom" and "in_window" in c:
+        run_chrom_exact(rec, "quick", 0)
+    elif c.get("fn") == "_extract_and_filter_chrom":
         run_chrom(rec, dict(k=len(c["tiles"]), part=0, parts=1), "thorough", 0)
     elif "genome" in c:
         run_sched(rec, "thorough", 0)
